@@ -18,11 +18,32 @@ package shard
 //@   pure
 
 // ---- paging of search results (properties C06, C18) ----
-// The read-transaction body of SearchPoints: of the variables it captures it assigns only
-// finalResults (assumed; the body itself - index search, point lookups - is not under contract).
+// The read-transaction body of SearchPoints: the ranked results of the index search come first, in
+// the order and with the hybrid scores the search gave them, each completed with its stored point;
+// the points matched only by filters follow, unranked (no score, no distance).
 //@ func (*Shard).SearchPoints$1
-//@   trusted
-//@   modifies finalResults
+//@   property C06
+//@   safety -overflow -nil
+//@   floats order
+//@   allocates
+//@   requires len(finalResults) == 0 && cap(finalResults) == 0
+//@   requires cacheTx != nil && cacheTx.manager != nil && unheld(cacheTx.mu) && unheld(cacheTx.manager.mu)
+//@   requires forallv(k string, contains(cacheTx.writtenCaches, k) ==> cacheTx.writtenCaches[k] != nil && heldW(cacheTx.writtenCaches[k].mu))
+//@   requires forallv(a string, forallv(b string, contains(cacheTx.writtenCaches, a) && contains(cacheTx.writtenCaches, b) && a != b ==> cacheTx.writtenCaches[a] != cacheTx.writtenCaches[b]))
+//@   ensures unheld(cacheTx.mu) && unheld(cacheTx.manager.mu) && cacheTx.manager == old(cacheTx.manager)
+//@   ensures forallv(k string, contains(cacheTx.writtenCaches, k) ==> cacheTx.writtenCaches[k] != nil && heldW(cacheTx.writtenCaches[k].mu))
+//@   ensures forallv(a string, forallv(b string, contains(cacheTx.writtenCaches, a) && contains(cacheTx.writtenCaches, b) && a != b ==> cacheTx.writtenCaches[a] != cacheTx.writtenCaches[b]))
+//@   modifies finalResults, allbitmaps, cacheTx.writtenCaches, cacheTx.failed.v, cacheTx.manager.sharedCaches, field(cache.sharedCacheElem.scrapped), field(cache.sharedCacheElem.lastAccessed), locks(cache.sharedCacheElem.mu), locks(cache.Transaction.mu), locks(cache.Manager.mu)
+//@   ensures err == nil ==> len(finalResults) >= len(callres(Search, 1, 1))
+//@   ensures err == nil ==> forall(k, 0, len(callres(Search, 1, 1)), finalResults[k].NodeId == callres(Search, 1, 1)[k].NodeId && finalResults[k].HybridScore == callres(Search, 1, 1)[k].HybridScore)
+//@   ensures err == nil ==> forall(k, len(callres(Search, 1, 1)), len(finalResults), finalResults[k].HybridScore == 0 && finalResults[k].Distance == nil && finalResults[k].Score == nil)
+//@   loop 1 invariant rangeindex >= -1 && rangeindex < len(results) && len(finalResults) == rangeindex + 1
+//@   loop 1 invariant cap(finalResults) == 0 || !samearray(finalResults, results)
+//@   loop 1 invariant forall(k, 0, rangeindex+1, finalResults[k].NodeId == results[k].NodeId && finalResults[k].HybridScore == results[k].HybridScore)
+//@   loop 2 invariant len(finalResults) >= len(results)
+//@   loop 2 invariant cap(finalResults) == 0 || !samearray(finalResults, results)
+//@   loop 2 invariant forall(k, 0, len(results), finalResults[k].NodeId == results[k].NodeId && finalResults[k].HybridScore == results[k].HybridScore)
+//@   loop 2 invariant forall(k, len(results), len(finalResults), finalResults[k].HybridScore == 0 && finalResults[k].Distance == nil && finalResults[k].Score == nil)
 
 //@ func (*Shard).SearchPoints
 //@   property C06 C18
@@ -59,7 +80,7 @@ package shard
 //@   ensures forallv(a string, forallv(b string, contains(cacheTx.writtenCaches, a) && contains(cacheTx.writtenCaches, b) && a != b ==> cacheTx.writtenCaches[a] != cacheTx.writtenCaches[b]))
 
 //@ func (*Shard).InsertPoints
-//@   property C07 C08
+//@   property C07 C08 C15
 //@   safety -overflow -index
 //@   requires s.cacheManager != nil
 //@   ensures ncalls(NewTransaction) == 0 ==> result != nil && ncalls(Commit) == 0 && ncalls(Write) == 0
@@ -105,7 +126,7 @@ package shard
 // the stored point count is the previous count plus the change; a negative result is refused
 // before anything is written
 //@ func changePointCount
-//@   property C01
+//@   property C01 C15
 //@   pure
 //@   safety -overflow
 //@   after Get assume result == nil || len(result) >= 8
@@ -115,7 +136,7 @@ package shard
 // insert step: an id that is already stored is an error and nothing is written; otherwise the
 // point is written under a node id taken from the counter and handed to the indexes with it
 //@ func (*Shard).InsertPoints$1$1
-//@   property C01
+//@   property C01 C15
 //@   ensures callres(CheckPointExists, 1, 0) ==> err != nil && ncalls(SetPoint) == 0 && ncalls(NextId) == 0
 //@   ensures err == nil ==> !skip && ncalls(SetPoint) == 1 && ncalls(NextId) == 1
 //@   ensures err == nil ==> callarg(SetPoint, 1, 1).NodeId == callres(NextId, 1, 0) && callarg(SetPoint, 1, 1).Point.Id == point.Id && callarg(SetPoint, 1, 1).Point.Data == point.Data
@@ -124,7 +145,7 @@ package shard
 // update step: unknown ids are skipped without writing; an existing id is never skipped, is written
 // back under its existing node id and is reported as updated
 //@ func (*Shard).UpdatePoints$1$1
-//@   property C01
+//@   property C01 C17
 //@   safety -overflow
 //@   ensures skip ==> callres(GetPointByUUID, 1, 1) == pointstore.ErrPointDoesNotExist && ncalls(SetPoint) == 0 && len(updatedIds) == old(len(updatedIds))
 //@   ensures callres(GetPointByUUID, 1, 1) == nil ==> !skip
@@ -144,7 +165,7 @@ package shard
 // delete step: unknown ids are skipped; an existing id is reported, its node id is released and
 // all its keys are removed
 //@ func (*Shard).DeletePoints$1$1
-//@   property C01
+//@   property C01 C17
 //@   safety -overflow
 //@   ensures skip ==> callres(GetPointByUUID, 1, 1) == pointstore.ErrPointDoesNotExist && ncalls(DeletePoint) == 0 && ncalls(FreeId) == 0 && len(deletedIds) == old(len(deletedIds))
 //@   ensures callres(GetPointByUUID, 1, 1) == nil ==> !skip && ncalls(FreeId) == 1 && ncalls(DeletePoint) == 1
